@@ -19,7 +19,7 @@
      [t;16]                                the healthy period ends: faults begin *)
 From Coq Require Import List NArith ZArith Bool Uint63.
 Import ListNotations.
-From VF Require Import Base Cursor Cursor_proofs Raw.
+From VF Require Import Base Core Cursor Cursor_proofs Raw.
 Local Open Scope Z_scope.
 
 Definition row := list Z.
@@ -284,6 +284,58 @@ Definition mon_C05 (rs : list row) : verdict :=
 Definition mon_stuck (kind : Z) (code : N) (rs : list row) : verdict :=
   first_some (fun r => mkV code (Z.to_N (rget 2 r))) (of_kind kind rs).
 
+(* ---------- a node's own operation log, replayed through Core ---------- *)
+(* kind 20 rows: [_; 20; node; t_ns; leaving; op; name; inc; addr|from; meta; bootstrap] in the order in which the
+   operations took effect (written under the node lock by the instrumented aliveNode / suspectNode / deadNode /
+   resetNodes); kind 21 rows: the node's records when the log ends; kind 22: [_; 22; node; counter; leaving; unusable].
+   Timers never fire inside the replay (their callbacks are in the log as dead claims signed by the node itself),
+   so the suspicion timeouts are set beyond any horizon. *)
+Definition far : Z := 1000000000000000000.
+Definition hvsn : list N := [1; 5; 2; 0; 0; 0]%N.
+Definition log_cfg (c : ccfg) (i : Z) (addr : N) : cfg :=
+  let mult := fst (nth (Z.to_nat (i mod 16)) (c_nodes c) (4, 0)) in
+  mkCfg (Z.to_N i) addr hvsn 0 (150 * c_pi c * 1000000) (mult - 2) far (c_smm c)
+        [far; far; far; far; far; far; far; far; far; far] (c_awmax c) false false [] true.
+Definition with_now (s : nstate) (t : Z) (lv : bool) : nstate :=
+  mkS (recs s) (nnodes s) (timers s) (linc s) lv (score s) (bq s) t.
+Definition with_linc (s : nstate) (l : N) : nstate :=
+  mkS (recs s) (nnodes s) (timers s) l (leaving s) (score s) (bq s) (now s).
+Definition log_op (cf : cfg) (s : nstate) (r : row) : nstate :=
+  let s1 := with_now s (rget 3 r) (Z.eqb (rget 4 r) 1) in
+  let k := rget 5 r in
+  let name := Z.to_N (rget 6 r) in let inc := Z.to_N (rget 7 r) in
+  if Z.eqb k 0 then
+    let b := Z.eqb (rget 10 r) 1 in
+    (* setAlive / UpdateNode drew the incarnation before taking the lock *)
+    let s2 := if b then with_linc s1 (N.max (linc s1) inc) else s1 in
+    fst (step cf s2 (OAlive inc name (Z.to_N (rget 8 r)) (Z.to_N (rget 9 r)) hvsn b))
+  else if Z.eqb k 1 then fst (step cf s1 (OSuspect inc name (Z.to_N (rget 8 r))))
+  else if Z.eqb k 2 then fst (step cf s1 (ODead inc name (Z.to_N (rget 8 r))))
+  else fst (step cf s1 OReap).
+Fixpoint zrins (r : list Z) (l : list (list Z)) : list (list Z) :=
+  match l with
+  | [] => [r]
+  | q :: l' => if nth 0 r 0 <=? nth 0 q 0 then r :: l else q :: zrins r l'
+  end.
+Definition st_num (x : st) : Z := match x with Alive => 0 | Suspect => 1 | Dead => 2 | Left => 3 end.
+Definition corr_log_node (c : ccfg) (rs : list row) (i : Z) : verdict :=
+  let ops := filter (fun r => Z.eqb (rget 2 r) i) (of_kind 20 rs) in
+  match ops, filter (fun r => Z.eqb (rget 2 r) i) (of_kind 22 rs) with
+  | first :: _, [fin] =>
+      if Z.eqb (rget 5 fin) 1 then vok
+      else if negb (Z.eqb (rget 5 first) 0 && Z.eqb (rget 10 first) 1) then vok   (* the log does not start at setAlive *)
+      else
+        let cf := log_cfg c i (Z.to_N (rget 8 first)) in
+        let s := fold_left (log_op cf) ops (init cf) in
+        let got := fold_right zrins [] (map (fun p => [Z.of_N (fst p); Z.of_N (rinc (snd p)); st_num (rst (snd p)); Z.of_N (raddr (snd p)); Z.of_N (rmeta (snd p))]) (recs s)) in
+        let want := fold_right zrins [] (map (fun r => skipn 3 r) (filter (fun r => Z.eqb (rget 2 r) i) (of_kind 21 rs))) in
+        if list_eqb zlist_eqb got want && Z.eqb (Z.of_N (linc s)) (rget 3 fin) then vok
+        else mkV 63 (Z.to_N i)
+  | _, _ => vok
+  end.
+Definition corr_logs (c : ccfg) (rs : list row) : verdict :=
+  first_some (corr_log_node c rs) [0; 1; 2].
+
 (* ---------- entry ---------- *)
 (* sel: 0 everything; 3 / 4 / 5 only that property's monitors (plus the correspondence) *)
 Definition check_case (sel : Z) (cs : list int * (list (list int) * list (list int))) : verdict :=
@@ -305,5 +357,5 @@ Definition check_case (sel : Z) (cs : list int * (list (list int) * list (list i
           (vthen (if on 3 then mon_C03_sched c rs else vok)
           (vthen (if on 3 then mon_stuck 18 536 rs else vok)
                  (corr_sched c rs))))
-        else if on 5 then vthen (mon_stuck 18 523 rs) (vthen (mon_below_owner rs) (mon_C05 rs)) else vok
+        else if on 5 then vthen (mon_stuck 18 523 rs) (vthen (mon_below_owner rs) (vthen (mon_C05 rs) (corr_logs c rs))) else vok
   end.
